@@ -193,7 +193,11 @@ impl SDJWTHolder {
                     {
                         next
                     } else {
-                        sd_map[key_to_disclose.as_str()]
+                        sd_map
+                            .get(key_to_disclose.as_str())
+                            .ok_or(Error::InvalidState(
+                                "Requested claim doesn't exist".to_string(),
+                            ))?
                             .0
                             .as_object()
                             .ok_or(Error::ConversionError("json object".to_string()))?
